@@ -341,3 +341,13 @@ func TestVerifC20Speaker(t *testing.T) {
 		Assumptions: []string{"interleavings are produced by the Go scheduler, not enumerated; the race detector generalises each run to executions with the same happens-before graph", "memberlist disabled; the speaker under test is node0"}},
 		genC20, runC20)
 }
+
+// The same concurrent workloads decide C05 for concurrently delivering reconcilers: at rest the routes on every
+// session and the per-service peers are those of the serial replay in effect order (a node event that re-publishes
+// the advertisements must not overwrite what a service event published meanwhile).
+func TestVerifC05Concurrent(t *testing.T) {
+	vw.Run(t, vw.Options{Property: "C05", Engine: "speaker-concurrent",
+		Rule:        "the concurrent workloads of C20 on the speaker (service, configuration and node workers plus status fetchers, through the handlers wired by k8s.New, built with -race): no data race, and the per-session routes, per-service peers and layer-2 announcements at rest equal the serial replay in effect order; non-trivial as in C20",
+		Assumptions: []string{"interleavings are produced by the Go scheduler, not enumerated"}},
+		genC20, runC20)
+}
